@@ -24,6 +24,7 @@ FRAMES = {
     'same_except_window_cc': ['window', 'congestion'],
     'same_except_phase': ['phase'],
     'same_except_log': ['packet_log'],
+    'same_except_bitrate': ['bitrate'],
     'same_except_uplink': ['last_received', 'connected', 'rtt', 'phase', 'last_ack_or_rtt_sample_ms', 'reconnection'],
     'same_except_qc': ['quality_cache'],
     'same_except_timeout': ['conn_timeout_ms'],
@@ -249,12 +250,13 @@ def add_reconnection(u):
             'final(self).connection_established_ms == old(self).connection_established_ms',
             'final(self).startup_grace_deadline_ms == old(self).startup_grace_deadline_ms']),
         u.fn(R, 'mark_success', impl='ReconnectionState', sub='reconn', ensures=[
-            'final(self).reconnect_failure_count == 0',
+            C('C08.reconn.mark_success.backoff_restarts', 'final(self).reconnect_failure_count == 0'),
             'final(self).last_reconnect_attempt_ms == old(self).last_reconnect_attempt_ms',
             'final(self).connection_established_ms == old(self).connection_established_ms',
             'final(self).startup_grace_deadline_ms == old(self).startup_grace_deadline_ms']),
         u.fn(R, 'reset_startup_grace', impl='ReconnectionState', sub='reconn', requires=['now < 0x4000_0000_0000_0000'],
-             ensures=['final(self).startup_grace_deadline_ms == now + 5000']),
+             ensures=['final(self).startup_grace_deadline_ms == now + 5000', 'final(self).last_reconnect_attempt_ms == old(self).last_reconnect_attempt_ms',
+                      'final(self).reconnect_failure_count == old(self).reconnect_failure_count', 'final(self).connection_established_ms == old(self).connection_established_ms']),
     ]))
 
 
@@ -469,12 +471,27 @@ def add_connection(u):
     F(u.fn(CONN, 'record_reconnect_attempt', impl='SrtlaConnection', sub='reconn', ensures=[
         'final(self).reconnection.last_reconnect_attempt_ms == now_ms', 'final(self).same_except_reconnection(old(self))']))
     F(u.fn(CONN, 'mark_reconnect_success', impl='SrtlaConnection', sub='reconn', ensures=[
-        'final(self).reconnection.reconnect_failure_count == 0', 'final(self).same_except_reconnection(old(self))',
-        'final(self).reconnection.connection_established_ms == old(self).reconnection.connection_established_ms']))
+        C('C08.reconn.mark_reconnect_success.backoff_restarts', 'final(self).reconnection.reconnect_failure_count == 0'), 'final(self).same_except_reconnection(old(self))',
+        'final(self).reconnection.connection_established_ms == old(self).reconnection.connection_established_ms',
+        'final(self).reconnection.last_reconnect_attempt_ms == old(self).reconnection.last_reconnect_attempt_ms',
+        'final(self).reconnection.startup_grace_deadline_ms == old(self).reconnection.startup_grace_deadline_ms']))
+    F(u.fn(CONN, 'update_phase', impl='SrtlaConnection', sub='reconn',
+           post_rewrite=[(lambda t: __import__('rules').r18_guards_to_ifs(t, 'self.phase')[0], None, 1)], ensures=[
+        C('C04+C08.reconn.update_phase.never_enters_or_leaves_registering', '(old(self).phase is Registering) == (final(self).phase is Registering)'),
+        C('C12.reconn.update_phase.frame', 'final(self).same_except_phase(old(self))'),
+        'final(self).phase is Warming ==> final(self).phase == old(self).phase']))
+    F(u.fn(CONN, 'recompute_batch_regime', impl='SrtlaConnection', sub='batch',
+           post_rewrite=[('crate::connection::batch_send::BatchRegime::from_bps(', 'BatchRegime::from_bps(', 1)],
+           requires=['old(self).batch_sender.wf()'],
+           ensures=[C('C01.batch.recompute_batch_regime.keeps_the_queue', '''final(self).batch_sender.wf() && final(self).batch_sender.queue == old(self).batch_sender.queue && final(self).batch_sender.sequences == old(self).batch_sender.sequences
+            && final(self).batch_sender.queue_times == old(self).batch_sender.queue_times && final(self).batch_sender.last_flush_ms == old(self).batch_sender.last_flush_ms'''),
+                    C('C01+C12.batch.recompute_batch_regime.frame', 'final(self).same_except_batch_bitrate(old(self)) && final(self).bitrate == old(self).bitrate')]))
     F(u.fn(CONN, 'reset_for_reconnect', impl='SrtlaConnection', sub='acct', ensures=S.RESET_CORE_ENSURES_PUBLIC('reset_for_reconnect') + [
-        'final(self).last_received is None', '!final(self).congestion.fast_recovery_mode',
-        'final(self).reconnection.last_reconnect_attempt_ms == now', 'final(self).reconnection.reconnect_failure_count == 0',
+        'final(self).last_received is None', C('C06.acct.reset_for_reconnect.leaves_fast_recovery', '!final(self).congestion.fast_recovery_mode'),
+        C('C08.acct.reset_for_reconnect.retry_clock_and_backoff_restart', 'final(self).reconnection.last_reconnect_attempt_ms == now && final(self).reconnection.reconnect_failure_count == 0'),
         'final(self).conn_id == old(self).conn_id',
+        'final(self).reconnection.connection_established_ms == old(self).reconnection.connection_established_ms',
+        'final(self).reconnection.startup_grace_deadline_ms == old(self).reconnection.startup_grace_deadline_ms',
     ]))
     # ---- ack_nak.rs
     F(u.fn(A, 'register_packet', impl='SrtlaConnection', sub='acct',
